@@ -1,5 +1,7 @@
 """C21 - every call finishes in bounded steps once it runs without interference."""
 import schedprop
+import schedcommon as sc
+import schedupper
 
 THEOREMS = {"C21.v": ["C21_solo_terminates", "C21_thread_ok_invariant", "C21_reachable_solo_terminates",
                       "C21_retry_loops_bounded", "C21_wait_only_PP3", "C21_known_wait"]}
@@ -30,4 +32,7 @@ def run(ctx):
         "call is run alone to completion; evaluations = steps replayed; distinct = distinct schedules; non-trivial = freeze "
         "point in the middle of another thread's call",
         "compiled Lower::get/put: all other threads frozen, the in-flight call runs alone under a step budget; steps replayed "
-        "on machine M1 (CORR), solo bound and no-wait oracle (ORACLE [C21])")
+        "on machine M1 (CORR), solo bound and no-wait oracle (ORACLE [C21])",
+        more=[(schedupper.upper_freeze_jobs, "whole allocator (LLFree::get/put/drain/change_tree), freeze mode: every in-flight "
+               "call runs alone under a step budget; steps replayed on machine M2 (CORR), termination oracle (ORACLE [C21])",
+               sc.UPPER_DRIVER)])
